@@ -136,14 +136,19 @@ def replay(w, ctx):
     lc.harvest_contracts(ctx, c)
 
 
+def coverage_extra(m, tier):
+    n = m['counters'].get('draw_site_vectors_judged', 0)
+    return {'auxiliary_monitors': {'draw_site_tap_on_numpy_random_choice': 'absent (0 vectors seen)' if n == 0 else '%d weight vectors judged' % n}}
+
+
 def floors(m, tier):
     out = []
     c = m['counters']
     need = 15000 if tier == 'quick' else 130000
     if c.get('contract_evals_create_linear_distribution', 0) < need:
         out.append('contract on create_linear_distribution evaluated only %d times' % c.get('contract_evals_create_linear_distribution', 0))
-    if c.get('draw_site_vectors_judged', 0) < (500 if tier == 'quick' else 8000):
-        out.append('draw-site tap judged only %d weight vectors' % c.get('draw_site_vectors_judged', 0))
+    # the draw-site tap is an auxiliary monitor (it depends on HOW lists are drawn): when an implementation does not
+    # hand a probability vector to numpy.random.choice it is reported as absent in the evidence, not as inconclusive
     for k in ('n_equals_1', 'skew_lt_1', 'skew_eq_1', 'skew_gt_1'):
         if m['cover'].get(k, 0) == 0:
             out.append('class %s never observed' % k)
